@@ -46,14 +46,18 @@ TNext ==
   \/ Is("ethdb.BatchWrite") /\ (Trie \/ Rcpt \/ KvHist \/ R_GenTrie)
   \/ Is("gldb.SetSync:lastreceipts") /\ LastRcpt
   \/ Is("gldb.SetSync:lastblock") /\ (AppLast \/ R_GenLast)
-  \/ Is("gldb.SetSync:stateKey") /\ (StSave \/ (R_Load /\ stkey = NoState) \/ R_CompleteSave)
+  \/ Is("gldb.SetSync:stateKey") /\ (StSave \/ R_GenSave \/ R_CompleteSave)
+  \/ Is("gldb.SetSync:stateKey.proposer") /\ (StSaveProp \/ R_GenProp \/ R_CompleteProp)
+  \/ Is("gldb.SetSync:stateIntermediateKey.proposer") /\ StInterProp
+  \* a durable write the specification does not know (recorded by the engine as unmodelled): no effect
+  \/ Is("Other") /\ UNCHANGED vars
   \/ Is("WalHeight") /\ (  (W_Mark /\ AtH(csH))
                         \/ (R_Cons /\ wal.mark = 0 /\ AtH(1))
                         \/ (R_WalCheck /\ wal.mark < csH /\ AtH(csH)))
   \/ Is("WalStepNewHeight") /\ AtH(csH) /\ (W_NewHeight \/ R_WalStep)
   \/ Is("Restart") /\ Crash
   \* steps of the restart path that write nothing
-  \/ Silent /\ R_Load /\ stkey # NoState
+  \/ Silent /\ R_Load
   \/ Silent /\ R_Complete
   \/ Silent /\ R_Hack
   \/ Silent /\ R_Cons /\ wal.mark # 0
